@@ -224,6 +224,8 @@ class AsyncFIXConnection:
                     return
             self._socket_writer = None
             self._socket_reader = None
+            # unread tail belongs to the closed connection, next one starts clean
+            self._msg_buffer = b""
             await self._state_set(disconn_state)
             await self.on_disconnect()
 
